@@ -47,7 +47,7 @@ CHECKS = {
             "DESIGN.md §5 C07", "stepsim"),
     "C08": ("exploration",
             "deterministic simulation: real aggregator with pending limit, real submission loops, simulated DA outages of finite length; refusal-legality oracle against the DA ledger; bounded liveness with an accepting DA",
-            "Seeded histories with limit 1..8, initial height 1..50, all-empty/mixed/all-non-empty chains and finite DA outages. A production step that declines is legal only while at least `limit` committed blocks still wait for DA acceptance (header or non-empty data); with an accepting DA every round must commit a block. Sampling, not proof.",
+            "Seeded histories with limit 1..8, initial height 1..50, all-empty/mixed/all-non-empty chains and finite DA outages. A production step that declines is legal only while at least `limit` committed blocks still wait for DA acceptance (header or non-empty data); with an accepting DA every round must commit a block. One scenario in twelve runs the real aggregation loop (lazy or normal) together with the real submission loops as goroutines under the fake clock through an outage and a recovery; the idle chain must then grow at the sustainable rate. Sampling, not proof.",
             "Only outages are injected so that accepted and acknowledged coincide.",
             "DESIGN.md §5 C08", "stepsim"),
     "C03": ("exploration",
@@ -99,7 +99,7 @@ CHECKS = {
     "C14": ("exploration",
             "deterministic simulation: seeded op/crash/disk-error histories on the real store over a simulated journalled disk, checked against a map model",
             "Seeded operation histories (save/overwrite/set-height/state/metadata/reopen/crash inside an operation/injected disk error) run on the real DefaultStore over a simulated disk with a write journal; "
-            "a map model is compared after every operation by reading the whole universe back; a crash cutting any durable write of an operation must leave the old or the new state. "
+            "a map model is compared after every operation by reading the whole universe back (or lazily, at check points); state writes move one field at a time as well as all together; a crash cutting any durable write of an operation must leave the old or the new state. "
             "Sampling, not proof; a fraction of thorough runs repeats histories on real badger.",
             "Trusts the simulated disk's crash model (process death, atomic batches, ordered durability) as a faithful abstraction of badger; encodings are real.",
             "DESIGN.md §5 C14", "stepsim"),
